@@ -100,6 +100,8 @@ class Case:
         self.cfg_name, self.direction, self.script = cfg_name, direction, script
         cfg = dict(CONFIGS[cfg_name])
         cfg["peers"] = [dict(p) for p in cfg["peers"]]
+        # "in+ready": the peer already has a ready connection (an earlier inbound one) when this one arrives
+        self.prior = direction == "in+ready"
         if direction == "out":
             cfg["peers"][0].update(persistent=True, reconnect_wait=10 ** 7)
         self.w = World(cfg)
@@ -184,8 +186,17 @@ class Case:
     def execute(self):
         w, h, M = self.w, self.h, self.M
         try:
-            if self.direction == "in":
+            if self.direction.startswith("in"):
                 w.start()
+                if self.prior:
+                    p0 = h.inbound(ip="10.1.0.1", port=40999)
+                    h.settle()
+                    hbh, e2e = w.ids()
+                    p0.send(M.cer(PEER, self.REALM, auth=self.auth_ids or [4], acct=self.acct_ids, hbh=hbh, e2e=e2e), "prior")
+                    h.settle()
+                    p0.drain()
+                    w.observe()
+                    self.p0 = p0
                 self.p = h.inbound(ip="10.1.0.1")
                 h.settle()
                 self.state = "await_cer"
@@ -218,8 +229,9 @@ class Case:
     def pre_ready_routing_check(self):
         if self.state in ("await_cer", "await_cea", "rejected"):
             r = self.routable()
-            if r not in (None, False):
-                # some other peer could be ready in multi-peer configs; here only one connection exists
+            if r not in (None, False) and (not self.prior or r is self.h.conn_of(self.p)):
+                # some other peer could be ready in multi-peer configs; here only one connection exists (or, with
+                # an earlier ready connection of the same peer, the one under test must not be the one offered)
                 self.witness("routing.used_before_exchange_succeeded", {"state": self.state})
 
     def send_letter(self, letter):
@@ -261,7 +273,7 @@ class Case:
         h, w = self.h, self.w
         st0 = self.state
         if letter.startswith("ADV"):
-            dt = int(letter[3:]) if len(letter) > 3 else (self.cer_timeout if self.direction == "in" else self.cea_timeout) + 1
+            dt = int(letter[3:]) if len(letter) > 3 else (self.cea_timeout if self.direction == "out" else self.cer_timeout) + 1
             h.advance(dt)
             ids = None
         else:
@@ -442,7 +454,7 @@ class Run:
         self.hashes = set()
         self.samples = []
         self.transitions = {}
-        self.cov = {"histories_by_dir": {"in": 0, "out": 0}, "by_config": {}, "steps": 0, "shim_engaged": {}}
+        self.cov = {"histories_by_dir": {"in": 0, "out": 0, "in+ready": 0}, "by_config": {}, "steps": 0, "shim_engaged": {}}
 
     def witness(self, key, detail, replay=None):
         if len(self.wit) < 200:
@@ -494,7 +506,7 @@ def run_shard(spec):
         i = 0
         for d in range(1, spec["depth"] + 1):
             for script in itertools.product(LETTERS, repeat=d):
-                for direction in ("in", "out"):
+                for direction in ("in", "out", "in+ready") if d < spec["depth"] else ("in", "out"):
                     i += 1
                     if i % spec["parts"] != spec["part"]:
                         continue
@@ -512,7 +524,7 @@ def run_shard(spec):
                 if l == "ADV" and rng.random() < 0.7:
                     l = "ADV" + str(rng.choice([1, 1, 2, 3, 4, 5, 7, 10]))
                 script.append(l)
-            run.one(rng.choice(cfgs), rng.choice(["in", "out"]), script)
+            run.one(rng.choice(cfgs), rng.choice(["in", "out", "in", "out", "in+ready"]), script)
     elif spec["kind"] == "apps":
         # which advertised application ids count as shared: every placement of the node's own ids and foreign
         # ids over the four places a CER can carry them, for every configuration
@@ -533,7 +545,7 @@ def run_shard(spec):
             places.append({})
             for pl in places:
                 for tail in ((), ("REQ",), ("DWR",)):
-                    run.one(cfg, "in", (cerx(**pl),) + tail)
+                    run.one(cfg, "in+ready" if tail == ("DWR",) else "in", (cerx(**pl),) + tail)
                     run.cov["apps_cases"] = run.cov.get("apps_cases", 0) + 1
     else:
         # directed timing: ignored traffic just before the deadline, advance to exactly / past the timeout
